@@ -463,7 +463,10 @@ def _run_shards(mod, camp, tier, seed, shards):
                    "--shard", str(i), "--out", out]
             if i == 0 and attempt == 0:
                 cmd.append("--directed")
-            p = subprocess.Popen(cmd, env=e2, stdout=subprocess.PIPE, stderr=subprocess.STDOUT, text=True)
+            # output goes to a file: a worker that prints a lot must never block on a full pipe
+            logf = open(os.path.join(tmpd, "log%d.txt" % i), "w")
+            p = subprocess.Popen(cmd, env=e2, stdout=logf, stderr=subprocess.STDOUT)
+            p._verif_log = logf
             running.append((i, attempt, p, out, cur))
         time.sleep(0.1)
         for ent in list(running):
@@ -471,7 +474,12 @@ def _run_shards(mod, camp, tier, seed, shards):
             if p.poll() is None:
                 continue
             running.remove(ent)
-            txt = p.stdout.read()
+            p._verif_log.close()
+            try:
+                with open(p._verif_log.name, errors="replace") as f:
+                    txt = f.read()[-20000:]
+            except OSError:
+                txt = ""
             if p.returncode == 0 and os.path.exists(out):
                 with open(out) as f:
                     camp.merge(json.load(f))
